@@ -114,7 +114,10 @@ def check_case(run, case, detail, tz, scratch, digests):
             if name not in params:
                 viol(f"parameter_missing_from_ser:{okind}_sourced", f"node {i} resolved '{name}' from {okind} (value {nt.params.get(name)!r}) but the SER does not list it", i)
                 continue
-            if not account.close(account.plain(params[name]), account.plain(nt.params[name])):
+            sv, av = account.plain(params[name]), account.plain(nt.params[name])
+            if isinstance(sv, str) and not isinstance(av, str) and (sv.startswith(("FloatDataType(", "FloatDataCollection(", "NoDataType(")) or sv.startswith("Hostile(")):
+                run.count("non_json_parameter_values_shown_as_repr")  # a data object held in the context: the SER can only show its repr
+            elif not account.close(sv, av):
                 viol(f"parameter_value_wrong:{okind}_sourced", f"SER parameters['{name}']={params[name]!r}, value actually passed {nt.params[name]!r}", i)
             if sources.get(name) != want_src:
                 viol(f"parameter_source_wrong:reported_{sources.get(name)}_actual_{want_src}", f"SER parameter_sources['{name}']={sources.get(name)!r}, actual channel {want_src}", i)
